@@ -488,6 +488,8 @@ def run(chk, replay=None):
     reservations(chk)
     from .c13_modepages import modepages
     modepages(chk)
+    from .c13_satdisk import satdisk
+    satdisk(chk)
     # ---- TLC judges ---------------------------------------------------------------------------------------
     vs, st = tlc.judge_traces("Trace_Facade", "Trace_Facade.cfg", calls, name="c13trf")
     ev.judged("Trace_Facade", st, len(calls))
